@@ -1208,3 +1208,18 @@ def m_list_back(sim, st, c):
 def m_rc_as_ptr(sim, st, c):
     g = deref_arg(sim, st, c["args"][0])
     return Ref(sim.deref_value(st, g), False, raw=True)
+
+
+@pattern(r"^std::f(32|64)::<impl f(32|64)>::total_cmp$")
+def m_total_cmp(sim, st, c):
+    a = deref_arg(sim, st, c["args"][0])
+    b = deref_arg(sim, st, c["args"][1])
+    return Sym("total_cmp(%r, %r)" % (a, b), c["ret_ty"])
+
+
+@pattern(r"^std::cmp::Ordering::is_(eq|ne|lt|le|gt|ge)$")
+def m_ordering_is(sim, st, c):
+    o = sim.force_variant(st, c["args"][0])
+    name = c["fn"]["name"]
+    table = {"is_eq": {"Equal"}, "is_ne": {"Less", "Greater"}, "is_lt": {"Less"}, "is_le": {"Less", "Equal"}, "is_gt": {"Greater"}, "is_ge": {"Greater", "Equal"}}
+    return Const(o.vname in table[name], prim("bool"))
